@@ -295,6 +295,11 @@ def effect_str(e):
 
 
 # ---------------------------------------------------------------- the two directions
+# mechanical record of what was taken on trust at call sites during a run (reported in the evidence)
+APPLIED = {}
+ASSUMED_USED = set()
+
+
 class Contract(object):
     def __init__(self, qual, spec, mark=False, assumed=False, doc=''):
         self.qual = qual
@@ -305,6 +310,9 @@ class Contract(object):
 
     # modular call rule
     def __call__(self, it, func, args, kw):
+        APPLIED[self.qual] = APPLIED.get(self.qual, 0) + 1
+        if self.assumed:
+            ASSUMED_USED.add(self.qual)
         env = it.bind(func, args, kw)
         params = [a.arg for a in func.node.args.posonlyargs + func.node.args.args]
         vals = [env[pn] for pn in params]
